@@ -9,9 +9,14 @@ open FuelVerif FuelVerif.BMT
 
 def H : HashFn := Sha256.sha256
 
+/-- error answers: variant name without payload; every panic site prints `panic` -/
+def errStr : Err → String
+  | .panic _ => "panic"
+  | e => "err:" ++ e.name
+
 def fmt : Except Err Bytes → String
   | .ok b => toHex b
-  | .error e => "err:" ++ e.name
+  | .error e => errStr e
 
 def treePushAll (t : Tree) : List Bytes → Except Err Tree
   | [] => .ok t
